@@ -707,3 +707,6 @@ PROPS["C17"]["proofs"] = PROPS["C17"]["proofs"] + ["Bmc.Proofs.EndToEnd.HistoryC
 PROPS["C17"]["claim"] += (" HISTORY FORM about the translated code (Proofs/EndToEnd/HistoryC17.lean): generated_history_ignores_what_the_connection_holds — two connection values that agree on the sequence counter and differ "
                           "ARBITRARILY in layer structs, decoded-layer list, buffer and metric events, the same history of commands run on each by SendCommand AS TRANSLATED (each call on the value the previous one left): "
                           "same datagrams and same return value, call for call (generatedResults_eq: the returns are the hand model's).")
+PROPS["C13"]["proofs"] = PROPS["C13"]["proofs"] + ["Bmc.Proofs.EndToEnd.HistoryC13"]
+PROPS["C13"]["claim"] += (" HISTORY FORM of the logical half, about the translated code (Proofs/EndToEnd/HistoryC13.lean): generated_history_call_within_its_context — the n-th call of any history on SendCommand AS TRANSLATED "
+                          "adds at most as many datagrams as ITS OWN context allowed outcomes (nothing carried over from earlier calls); generated_history_within_contexts / _prefix_ — totals.")
